@@ -70,6 +70,19 @@ def mutations(rng, g):
     at = [t for _, t in attr_texts(d)]
     rt = next(t for k, t in attr_texts(d) if k == "R")
     add("two_ref_units", "same_ref_unit_twice_other_ident", assemble(q_header(d), at + [rt.replace(d["ref"]["ident"], g.ident())], "pub struct %s {}" % d["name"]), std(d))
+    # a token-identical repetition of the reference unit attribute is still more than one reference unit
+    for variant in ("repeated_verbatim_adjacent", "repeated_verbatim_last", "repeated_verbatim_first"):
+        d = ref_parent()
+        at = [t for _, t in attr_texts(d)]
+        rt = next(t for k, t in attr_texts(d) if k == "R")
+        i = at.index(rt)
+        if variant.endswith("adjacent"):
+            at2 = at[:i + 1] + [rt] + at[i + 1:]
+        elif variant.endswith("last"):
+            at2 = at + [rt]
+        else:
+            at2 = [rt] + at
+        add("two_ref_units", variant, assemble(q_header(d), at2, "pub struct %s {}" % d["name"]), std(d))
     # --- scale on the reference unit
     for variant, extra in (("scale", ["1.0"]), ("int_scale", ["1"]), ("prefix_and_scale", ["KILO", "1000"]), ("scale_and_doc", ["1.0", '"doc"'])):
         d = ref_parent()
